@@ -66,11 +66,13 @@ package scheduler
 //@ func shuffleAddresses
 //@   trusted
 //@   modifies addrs
+//@   ensures ordDet(addrs) == old(ordDet(addrs))
 //@   note rand.Shuffle driven by the entropy-seeded DRBG: a deterministic permutation of the current order
 
 //@ func sortAddressesByBalance
 //@   trusted
 //@   modifies addrs
+//@   ensures ordDet(addrs) == old(ordDet(addrs))
 //@   note sort.SliceStable: ties keep the current order
 
 //@ func initRNG
